@@ -850,6 +850,8 @@ def c16_plan(pid, tier, seed, t0):
         jobs.append(("burst", [conc, "burst", str([2, 4, 8][k % 3]), str(3000 if tier == "quick" else 20000), str(seed * 31 + k)]))
     for k in range(16 if tier == "quick" else 400):
         jobs.append(("runtimes", [conc, "runtimes", str([2, 4, 8, 4][k % 4]), str(250 if tier == "quick" else 4000), str(seed * 53 + k)]))
+    for k in range(12 if tier == "quick" else 300):
+        jobs.append(("twins", [conc, "twins", str([2, 4, 8][k % 3]), str(400 if tier == "quick" else 4000), str(seed * 71 + k)]))
     first_runs = 200 if tier == "quick" else 10000
     for k in range(first_runs):
         spins = rnd.choice([0, 0, 1000, 10000, 100000, 1000000, 3000000])
@@ -862,6 +864,8 @@ def c16_plan(pid, tier, seed, t0):
             jobs.append(("tsan-burst", [tsan, "burst", str([2, 4][k % 2]), "500", str(seed * 13 + k)]))
         for k in range(4 if tier == "quick" else 40):
             jobs.append(("tsan-runtimes", [tsan, "runtimes", str([2, 4][k % 2]), "12", str(seed * 17 + k)]))
+        for k in range(4 if tier == "quick" else 40):
+            jobs.append(("tsan-twins", [tsan, "twins", str([2, 4][k % 2]), "60", str(seed * 19 + k)]))
         for k in range(20 if tier == "quick" else 200):
             jobs.append(("tsan-first", [tsan, "first", str(rnd.choice([4, 8])), str(rnd.choice([0, 10000, 300000])), str(k)]))
     else:
@@ -919,6 +923,9 @@ def c16_plan(pid, tier, seed, t0):
         "length (0..100 calls) the threads are released together, each compiles its own *_by / map expressions (same shapes and offsets, different "
         "members) through the shared runtime and searches each four times while calling type() on every JSON type and all 26 built-ins in a "
         "thread-specific rotation, and the runtime is swept sequentially afterwards; truth comes from private runtimes used before the round. "
+        "'twins' rounds release all threads into compile at once with RELATED texts — one 77-byte expression behind 0..3 leading blanks (its "
+        "runtime error must be reported at the shifted offset) and 80-byte literals differing in a few characters, compiled twice by their thread "
+        "and once more sequentially after the join, values known by construction. "
         "(3) first-use race: the process is re-executed; all threads' first library "
         "call is a compile released by one barrier while the verif-hooks delay point widens the window between Runtime::new() and "
         "register_builtin_functions(); every thread then calls all 26 built-ins and must agree with the sequential results. (4) the same workload "
@@ -1009,6 +1016,9 @@ def c17_plan(pid, tier, seed, t0):
                 cid, kind = cid + ".big", kind[4:]
             if kind.startswith("names."):
                 cid, kind = cid + ".names", kind[6:]
+            if kind.startswith("deep"):
+                pre, _, kind = kind.partition(".")
+                cid = cid + "." + pre
             if c == "n-default":
                 kinds[kind] = kinds.get(kind, 0) + 1
                 merged["distinct"].add(hash(ln) & 0xFFFFFFFFFFFF)
